@@ -6,13 +6,13 @@ from common import run_model
 
 ID = "C16"
 LEVEL = "proof"
-GEN = ["RxGen", "UnicodeGen", "InlineGen", "BlockGen", "UtilGen", "NormalizeGen"]
+GEN = ["RxGen", "UnicodeGen", "InlineGen", "BlockGen", "UtilGen", "NormalizeGen", "TmplGen"]
 COQ = ["Props/C16.vo"]
 EXPLANATION = ("Theorems in coq/Props/C16.v: for every document given as lines with arbitrary mixed LF/CRLF/CR endings "
                "(side condition: no CR-terminated line directly followed by an empty LF-terminated line, which is a CRLF), "
                "the text handed to the block parser equals that of the LF form; a missing final newline is supplied; "
                "None behaves as the empty string. Conversion is G∘norm with G an arbitrary function (section variable), so "
-               "the result of any configuration is invariant; instantiated with the executable model of the whole core conversion (coq/Model/Doc.v, tied by the AST correspondence run): its AST is ending-invariant (C16_core_ast_ending_invariant). The normalisation op list is regenerated from "
+               "the result of any configuration is invariant; instantiated with the executable model of the whole core conversion (coq/Model/Doc.v, tied by the AST correspondence run): its AST is ending-invariant (C16_core_ast_ending_invariant), and so are the HTML output of the document model (C16_html_output_ending_invariant) and the output of the Markdown renderer model (C16_markdown_output_ending_invariant). The normalisation op list is regenerated from "
                "Markdown.parse/__call__ by the translator and tied by reflexivity (C16_tie_ops, C16_tie_none).")
 ASSUMPTIONS = ["everything downstream of Markdown.parse's prefix sees the text only through state.src (checked by the "
                "translator: the text variable is not used after state.process)",
